@@ -1,4 +1,5 @@
 import RNacos.Driver.Codec
+import RNacos.Driver.Distro
 open RNacos.Driver
 
 /-- Generic loop: `# …` lines are echoed and reset the state. -/
@@ -12,7 +13,7 @@ partial def loop {σ : Type} (h : IO.FS.Stream) (out : IO.FS.Stream) (init : σ)
     loop h out init step init
   else
     let (s', o) := step s (words l)
-    out.putStrLn o
+    if o ≠ "" then out.putStrLn o
     loop h out init step s'
 
 def main (args : List String) : IO UInt32 := do
@@ -21,4 +22,6 @@ def main (args : List String) : IO UInt32 := do
   match args with
   | ["codec"] => loop stdin stdout RNacos.BufReader.new Codec.step RNacos.BufReader.new; return 0
   | ["codec", "--spec"] => loop stdin stdout () (fun _ ws => ((), Codec.spec ws)) (); return 0
+  | ["distro"] => loop stdin stdout () Distro.step (); return 0
+  | ["distro", "--spec"] => loop stdin stdout ({} : Distro.SpecSt) Distro.specStep {}; return 0
   | _ => IO.eprintln "usage: driver <model> [--spec]"; return 2
